@@ -20,8 +20,9 @@ LEVEL_TEXT = ("Theorem C09_supercell_forward (every PML-free scene of the model:
               "PEC/PMC masks, tiled source terms; any number of steps): on every cell of the supercell the state is the unit-cell state of cell (i mod N) "
               "times the per-copy phase. Hypothesis per tiled axis: first and last cell width of the period agree; C09_seam_width_needed_refuted shows "
               "by computation that the statement fails without it (the source uses w0 instead of (w0+w_{N-1})/2 for the dual cell across a periodic seam). "
-              "Tie: per-step correspondence of the model on the unit cell and on the supercell; tiling predicate on the implementation.")
-LEVEL_NOTE = ("Scenes with CPML layers on untiled axes and 9-component tensors are outside the theorem (covered by the predicate only where generated); "
+              "C09_supercell_forward_full_tensor is the same statement for the fully anisotropic lossless tiers (9-component tensors, co-location averages across the seam). "
+              "Tie: per-step correspondence of the model on the unit cell and on the supercell (incl. 9-component media); tiling predicate on the implementation.")
+LEVEL_NOTE = ("Scenes with CPML layers on untiled axes and lossy 9-component tensors are outside the theorem (covered by the predicate only where generated); "
               "Bloch phases are oracle values.")
 TECHNIQUE = "Coq proof (div/mod index arithmetic, phase powers, 3-D lift through curls/updates, induction over steps) + differential unit-cell/supercell runs"
 
